@@ -66,14 +66,13 @@ def featFinish (start : Nat) (modVal buf : Text) (s : ALS) : AStep :=
       if kind = "Supr" && variant = "Tone" && (modVal = [43] || modVal = [45]) then .err ⟨"WrongModTone", start, start + 1⟩
       else pure (some (⟨.feature kind variant, modVal, start, s.pos⟩, s))
 
-/-- `get_feature` (alias/lexer.rs:157-198): the same scanning as the rule lexer's -/
+/-- `get_feature` (alias/lexer.rs:157-190): only `+` and `-` modify a feature in an alias (no alphas: repair of D31) -/
 def getFeature (s : ALS) : AStep :=
-  if !s.ls.inMatrix || (s.cur != 43 && s.cur != 45 && !Lex.isGreek s.cur && !Lex.isUpper s.cur) then .ok none
+  if !s.ls.inMatrix || (s.cur != 43 && s.cur != 45) then .ok none
   else do
     let l1 ← s.ls.advance
-    let (modVal, l2) ← Lex.featMod s.cur l1
-    let (buf, l4) ← Lex.featLoop (l2.trimWs.src.length + 1) l2.trimWs []
-    featFinish s.pos modVal buf { s with ls := l4 }
+    let (buf, l4) ← Lex.featLoop (l1.trimWs.src.length + 1) l1.trimWs []
+    featFinish s.pos [s.cur] buf { s with ls := l4 }
 
 /-- `get_repl_plus` -/
 def getReplPlus (s : ALS) : AStep :=
